@@ -93,6 +93,19 @@ __CPROVER_requires(1)
 __CPROVER_ensures(1)
 __CPROVER_assigns();
 
+/* The 400-year shift (zones with a footer, extended_) is outside these goals: every kernel contract requires !extended_, and the two
+ * helpers of the shifted branches get the precondition "extended_" so that reaching them is itself a failed obligation.  Their bodies are
+ * NOT verified and their postconditions are empty (nothing is ever concluded from them). */
+civil_lookup TimeLocal(const TimeZoneInfo* self, fields cs, year_t c4_shift)
+__CPROVER_requires(__CPROVER_is_fresh(self, sizeof(TimeZoneInfo)) && self->extended_)
+__CPROVER_ensures(1)
+__CPROVER_assigns();
+extern bool gz_extended;     /* ghost: true only in the (excluded) extended_ branches */
+fields YearShift(fields cs, year_t shift)
+__CPROVER_requires(gz_extended)
+__CPROVER_ensures(1)
+__CPROVER_assigns();
+
 /* ---- kernel ---- */
 /* value forms of the predicates (const Transition& / const TransitionType& are passed by value) */
 #define TYOK_V(z, tt) (-86400 < (tt).utc_offset && (tt).utc_offset < 86400 && (tt).abbr_index <= (z)->abbreviations_.size)
@@ -122,7 +135,7 @@ __CPROVER_assigns();
  * gz_hint is whatever the relaxed load of the hint returns: the postcondition does not mention it (C14). */
 #define BT_MIDDLE(z, t) (TR(z, 0).unix_time <= (t) && (t) < TR(z, NTR(z) - 1).unix_time)
 absolute_lookup BreakTime(const TimeZoneInfo* self, time_point_s tp)
-__CPROVER_requires(ZSHAPE(self) && !self->extended_)
+__CPROVER_requires(ZSHAPE(self) && !self->extended_ && !gz_extended)
 __CPROVER_requires(WFI(self, 0) && WFI(self, NTR(self) - 1) && TYOK(self, DEFTY(self)))
 __CPROVER_requires(TR(self, 0).unix_time < 0 && TR(self, NTR(self) - 1).unix_time >= 0)
 __CPROVER_requires(BT_MIDDLE(self, tp) ? (TBRACKET(self, gz_i, tp) && WFI(self, gz_i) && FITS64((Z)tp - TR(self, gz_i).unix_time)) : 1)
@@ -168,12 +181,18 @@ __CPROVER_assigns();
 #define TR_CIVIL_OK(tr) (OVALID((tr).civil_sec) && OVALID((tr).prev_civil_sec) && (tr).unix_time > INT64_MIN)
 civil_lookup MakeSkipped(Transition tr, fields cs)
 __CPROVER_requires(TR_CIVIL_OK(tr) && OVALID(cs))
-__CPROVER_requires(FITS64(PRE_OF(tr, cs)) && FITS64(POST_OF(tr, cs)) && FITS64(OSEC(cs) - OSEC(tr.prev_civil_sec)) && FITS64(OSEC(tr.civil_sec) - OSEC(cs)))
+__CPROVER_requires(FITS64(PRE_OF(tr, cs)))
+__CPROVER_requires(FITS64(POST_OF(tr, cs)))
+__CPROVER_requires(FITS64(OSEC(cs) - OSEC(tr.prev_civil_sec)))
+__CPROVER_requires(FITS64(OSEC(tr.civil_sec) - OSEC(cs)))
 __CPROVER_ensures(RV.kind == KIND_SKIPPED && (Z)RV.pre == PRE_OF(tr, cs) && RV.trans == tr.unix_time && (Z)RV.post == POST_OF(tr, cs))
 __CPROVER_assigns();
 civil_lookup MakeRepeated(Transition tr, fields cs)
 __CPROVER_requires(TR_CIVIL_OK(tr) && OVALID(cs))
-__CPROVER_requires(FITS64(PRE_OF(tr, cs)) && FITS64(POST_OF(tr, cs)) && FITS64(OSEC(tr.prev_civil_sec) - OSEC(cs)) && FITS64(OSEC(cs) - OSEC(tr.civil_sec)))
+__CPROVER_requires(FITS64(PRE_OF(tr, cs)))
+__CPROVER_requires(FITS64(POST_OF(tr, cs)))
+__CPROVER_requires(FITS64(OSEC(tr.prev_civil_sec) - OSEC(cs)))
+__CPROVER_requires(FITS64(OSEC(cs) - OSEC(tr.civil_sec)))
 __CPROVER_ensures(RV.kind == KIND_REPEATED && (Z)RV.pre == PRE_OF(tr, cs) && RV.trans == tr.unix_time && (Z)RV.post == POST_OF(tr, cs))
 __CPROVER_assigns();
 
@@ -196,24 +215,53 @@ static inline const Transition* valg_upper_bound_Transition_ByCivilTime(const Tr
 #define NEAR(z, i, cs) (-((Z)1 << 40) < OSEC(cs) - OSEC(TR(z, i).civil_sec) && OSEC(cs) - OSEC(TR(z, i).civil_sec) < ((Z)1 << 62) && \
                         -((Z)1 << 40) < OSEC(cs) - OSEC(TR(z, i).prev_civil_sec))
 
+/* C02: what pre / trans / post mean.  oc = second ordinal of cs; the row changes the offset from offp to offn at instant ut, so it shows
+ * prev = ut - 1 + offp + epoch one second before and civ = ut + offn + epoch at the change (WFI).  Then the values MakeSkipped / MakeRepeated
+ * return (PRE_OF, POST_OF) are cs read with the offset before / after the change, and they are ordered around trans as the property says. */
+#define lemma_prepost_REQ(oc, ut, offp, offn) (ZB(oc, 100) && ZB(ut, 64) && -86400 < (offp) && (offp) < 86400 && -86400 < (offn) && (offn) < 86400)
+#define PP_PREV(ut, offp) ((Z)(ut) - 1 + (offp) + EPOCHSEC)
+#define PP_CIV(ut, offn) ((Z)(ut) + (offn) + EPOCHSEC)
+#define PP_PRE(oc, ut, offp) ((Z)(ut) - 1 + ((Z)(oc) - PP_PREV(ut, offp)))
+#define PP_POST(oc, ut, offn) ((Z)(ut) + ((Z)(oc) - PP_CIV(ut, offn)))
+#define lemma_prepost_ENS(oc, ut, offp, offn) (PP_PRE(oc, ut, offp) == (Z)(oc) - EPOCHSEC - (offp) && PP_POST(oc, ut, offn) == (Z)(oc) - EPOCHSEC - (offn) && \
+  ((PP_PREV(ut, offp) < (oc) && (oc) < PP_CIV(ut, offn)) ? (PP_PRE(oc, ut, offp) >= (ut) && (ut) > PP_POST(oc, ut, offn)) : 1) && \
+  ((PP_CIV(ut, offn) <= (oc) && (oc) <= PP_PREV(ut, offp)) ? (PP_PRE(oc, ut, offp) < (ut) && (ut) <= PP_POST(oc, ut, offn)) : 1))
+
+/* table times stay 2^62 away from the ends of int64, so that differences of neighbouring entries are representable
+ * (ASSUMED of Load's output - see DESIGN.md, finding D6: Load does not establish it for crafted files) */
+#define MARGIN(z, i) (-((Z)1 << 62) <= (Z)TR(z, i).unix_time && (Z)TR(z, i).unix_time <= ((Z)1 << 62))
+#define MT_MIDDLE(z, cs) (!MT_BEFORE(z, cs) && !MT_AFTER(z, cs))
+#define SKIP_IS(r, tr, cs) ((r).kind == KIND_SKIPPED && (Z)(r).pre == PRE_OF(tr, cs) && (r).trans == (tr).unix_time && (Z)(r).post == POST_OF(tr, cs))
+#define REPEAT_IS(r, tr, cs) ((r).kind == KIND_REPEATED && (Z)(r).pre == PRE_OF(tr, cs) && (r).trans == (tr).unix_time && (Z)(r).post == POST_OF(tr, cs))
+
 civil_lookup MakeTime(const TimeZoneInfo* self, fields cs)
-__CPROVER_requires(ZSHAPE(self) && !self->extended_ && OVALID(cs))
+__CPROVER_requires(ZSHAPE(self) && !self->extended_ && !gz_extended && OVALID(cs))
 __CPROVER_requires(WFI(self, 0) && WFI(self, NTR(self) - 1) && TYWF(self, DEFTY(self)) && TYWF(self, TR(self, NTR(self) - 1).type_index))
-__CPROVER_requires(TR(self, 0).unix_time < 0 && TR(self, NTR(self) - 1).unix_time >= 0)
-__CPROVER_requires((!MT_BEFORE(self, cs) && !MT_AFTER(self, cs)) ? (CBRACKET(self, gz_j, cs) && WFI(self, gz_j) && WFI(self, gz_j - 1) && TYWF(self, TR(self, gz_j - 1).type_index) && \
+__CPROVER_requires(TR(self, 0).unix_time < 0 && TR(self, NTR(self) - 1).unix_time >= 0 && MARGIN(self, 0) && MARGIN(self, NTR(self) - 1))
+/* instance of the civil-time order that Load checks: the first entry shows an earlier civil second than the last */
+__CPROVER_requires(NTR(self) > 1 ? LEXLT(TR(self, 0).civil_sec, TR(self, NTR(self) - 1).civil_sec) : 1)
+__CPROVER_requires(MT_MIDDLE(self, cs) ? (CBRACKET(self, gz_j, cs) && WFI(self, gz_j) && WFI(self, gz_j - 1) && MARGIN(self, gz_j) && MARGIN(self, gz_j - 1) && \
                     TR(self, gz_j - 1).unix_time < TR(self, gz_j).unix_time) : 1)
+/* case split of the proof (exhaustive: MT_BEFORE / MT_AFTER / MT_MIDDLE = neither): one goal per case, selected by -DMT_CASE */
+#if defined(MT_CASE) && MT_CASE == 1
+__CPROVER_requires(MT_BEFORE(self, cs))
+#elif defined(MT_CASE) && MT_CASE == 2
+__CPROVER_requires(!MT_BEFORE(self, cs) && MT_AFTER(self, cs))
+#elif defined(MT_CASE) && MT_CASE == 3
+__CPROVER_requires(MT_MIDDLE(self, cs))
+#endif
 /* uniqueness of the civil bracket: a hint that brackets cs is the same bracket */
 __CPROVER_requires((0 < gz_hint && gz_hint < NTR(self) && !LEXLT(cs, TR(self, gz_hint - 1).civil_sec) && LEXLT(cs, TR(self, gz_hint).civil_sec)) ? gz_hint == gz_j : 1)
 /* before the first transition */
 __CPROVER_ensures((MT_BEFORE(self, cs) && !LEXLT(TR(self, 0).prev_civil_sec, cs)) ? UNIQ_IS(RV, SAT64(READ_IN(cs, TY(self, DEFTY(self)).utc_offset))) : 1)
-__CPROVER_ensures((MT_BEFORE(self, cs) && LEXLT(TR(self, 0).prev_civil_sec, cs)) ? (RV.kind == KIND_SKIPPED && (Z)RV.pre == PRE_OF(TR(self, 0), cs) && RV.trans == TR(self, 0).unix_time && (Z)RV.post == POST_OF(TR(self, 0), cs)) : 1)
+__CPROVER_ensures((MT_BEFORE(self, cs) && LEXLT(TR(self, 0).prev_civil_sec, cs)) ? SKIP_IS(RV, TR(self, 0), cs) : 1)
 /* after the last transition */
 __CPROVER_ensures((MT_AFTER(self, cs) && LEXLT(TR(self, NTR(self) - 1).prev_civil_sec, cs)) ? UNIQ_IS(RV, SAT64(READ_IN(cs, TY(self, TR(self, NTR(self) - 1).type_index).utc_offset))) : 1)
-__CPROVER_ensures((MT_AFTER(self, cs) && !LEXLT(TR(self, NTR(self) - 1).prev_civil_sec, cs)) ? (RV.kind == KIND_REPEATED && (Z)RV.pre == PRE_OF(TR(self, NTR(self) - 1), cs) && RV.trans == TR(self, NTR(self) - 1).unix_time && (Z)RV.post == POST_OF(TR(self, NTR(self) - 1), cs)) : 1)
+__CPROVER_ensures((MT_AFTER(self, cs) && !LEXLT(TR(self, NTR(self) - 1).prev_civil_sec, cs)) ? REPEAT_IS(RV, TR(self, NTR(self) - 1), cs) : 1)
 /* between two transitions: skipped at j, repeated at j-1, or unique in the type of j-1 */
-__CPROVER_ensures((!MT_BEFORE(self, cs) && !MT_AFTER(self, cs) && LEXLT(TR(self, gz_j).prev_civil_sec, cs)) ? (RV.kind == KIND_SKIPPED && (Z)RV.pre == PRE_OF(TR(self, gz_j), cs) && RV.trans == TR(self, gz_j).unix_time && (Z)RV.post == POST_OF(TR(self, gz_j), cs)) : 1)
-__CPROVER_ensures((!MT_BEFORE(self, cs) && !MT_AFTER(self, cs) && !LEXLT(TR(self, gz_j).prev_civil_sec, cs) && !LEXLT(TR(self, gz_j - 1).prev_civil_sec, cs)) ? (RV.kind == KIND_REPEATED && (Z)RV.pre == PRE_OF(TR(self, gz_j - 1), cs) && RV.trans == TR(self, gz_j - 1).unix_time && (Z)RV.post == POST_OF(TR(self, gz_j - 1), cs)) : 1)
-__CPROVER_ensures((!MT_BEFORE(self, cs) && !MT_AFTER(self, cs) && !LEXLT(TR(self, gz_j).prev_civil_sec, cs) && LEXLT(TR(self, gz_j - 1).prev_civil_sec, cs)) ? UNIQ_IS(RV, READ_IN(cs, TY(self, TR(self, gz_j - 1).type_index).utc_offset)) : 1)
+__CPROVER_ensures((MT_MIDDLE(self, cs) && LEXLT(TR(self, gz_j).prev_civil_sec, cs)) ? SKIP_IS(RV, TR(self, gz_j), cs) : 1)
+__CPROVER_ensures((MT_MIDDLE(self, cs) && !LEXLT(TR(self, gz_j).prev_civil_sec, cs) && !LEXLT(TR(self, gz_j - 1).prev_civil_sec, cs)) ? REPEAT_IS(RV, TR(self, gz_j - 1), cs) : 1)
+__CPROVER_ensures((MT_MIDDLE(self, cs) && !LEXLT(TR(self, gz_j).prev_civil_sec, cs) && LEXLT(TR(self, gz_j - 1).prev_civil_sec, cs)) ? UNIQ_IS(RV, READ_IN(cs, TY(self, TR(self, gz_j - 1).type_index).utc_offset)) : 1)
 __CPROVER_assigns();
 
 #pragma CPROVER check pop
